@@ -733,7 +733,13 @@ def fault_case(item):
     name, signer, sc = fault_scenarios(tier)[fi]
     res = {"scenario": name, "n": 0, "fails": [], "sigs": set(), "ops": 0}
 
-    def run(fault_at):
+    def run(fault_at, warm=0, shared=None):
+        """warm: number of complete fault-free handshakes made before with
+        the *same* key object (the fault index keeps counting across them)"""
+        if shared is None:
+            shared = {}
+            for w in range(warm):
+                run(fault_at, 0, shared)
         SEAMS.reset(seed, sc.name)
         pair = Pair(World())
         cap = {}
@@ -754,16 +760,22 @@ def fault_case(item):
         fk = None
         SEAMS.current = "C"
         if signer == "C":
-            chain, key = load_cred(sc.client_cred, fresh=True)
-            fk = FaultyKey(key, fault_at)
+            if "fk" not in shared:
+                chain, key = load_cred(sc.client_cred, fresh=True)
+                shared["chain"], shared["fk"] = chain, FaultyKey(key,
+                                                                 fault_at)
+            chain, fk = shared["chain"], shared["fk"]
             cg = pair.c.handshakeClientCert(chain, fk, settings=st_c,
                                             async_=True)
         else:
             cg = sc.client_gen(pair.c)
         SEAMS.current = "S"
         if signer == "S":
-            chain, key = load_cred(sc.cred, fresh=True)
-            fk = FaultyKey(key, fault_at)
+            if "fk" not in shared:
+                chain, key = load_cred(sc.cred, fresh=True)
+                shared["chain"], shared["fk"] = chain, FaultyKey(key,
+                                                                 fault_at)
+            chain, fk = shared["chain"], shared["fk"]
             kw = {}
             if sc.flavour == "srpcert":
                 kw["verifierDB"] = W.srp_db()
@@ -782,8 +794,17 @@ def fault_case(item):
     res["ops"] = nops
     pubcred = sc.cred if signer == "S" else sc.client_cred
     pub = pubkey_of(pubcred)
-    for k in range(nops):
-        pair2, pup2, out2, cap2, fk2 = run(k)
+    # cold: the fault hits a key object that has never signed; warm: the
+    # same key object has completed one fault-free handshake before
+    pw, _, outw, capw, fkw = run(-1, warm=1)
+    plans = [(k, 0, cap) for k in range(nops)]
+    if outw["C"].status == "ok" and outw["S"].status == "ok":
+        plans += [(k, 1, capw) for k in range(nops, fkw.__dict__["_n"])]
+    else:
+        res["fails"].append("second handshake with the same key object "
+                            "failed: %r" % (outw,))
+    for (k, warm, cap) in plans:
+        pair2, pup2, out2, cap2, fk2 = run(k, warm=warm)
         res["n"] += 1
         res["sigs"].add((out2[signer].sig()[:3]))
         # every signature-bearing message the signer put on the wire must
@@ -801,6 +822,8 @@ def fault_case(item):
                     "fault at private operation %d: %s with a corrupted "
                     "signature was placed on the wire (signer outcome %r)"
                     % (k, tok, out2[signer].sig()[:3]))
+        if warm and not fk2.__dict__["_hit"]:
+            res["fails"].append("harness: warm fault %d not reached" % k)
         if out2["C"].status == "ok" and out2["S"].status == "ok" and \
                 fk2.__dict__["_hit"]:
             # tolerated only if the faulty result was not a signature that
